@@ -106,6 +106,7 @@ class C13(Check):
         "(A/B stream) every 1-2 row scaffold over the C03 row scope x width x every buffer in the set: identical bytes, every BytesIO, "
         "chunk and read <= buffer; (C) sequence/fragment(+/-)/gap 400 buffers long, buffers 4096 and 65536: tracemalloc peak <= 8*buffer+256KiB after an untraced warm-up. "
         "non-trivial = case in which the buffer is smaller than the sequence/fragment/gap (so a flush or chunk split happens)"
+        " Second record wider and longer than the first; a non-N ambiguity code in the index scope; a second stream with gap character 'n' from the same index object; two-width long run; tracemalloc after an untraced warm-up, bound 8*buffer+256KiB."
     )
     assumptions = [
         "BytesIO objects created by tola.fasta.index / tola.fasta.simple are the only per-residue storage (confirmed by the tracemalloc runs)",
